@@ -11,16 +11,17 @@ from concurrent.futures import ThreadPoolExecutor
 from lib.core import zlit, zlist, PY, impl_env
 
 MANIFEST = {
-    'text': 'Coq theorems over the decision-function model of SecFld (all argument values): a successful resolution has '
-            'field characteristic = resolved char, claimed order = order argument (else char^ext_deg), min_order <= claimed '
-            'order (unconditionally, by the final assert: a wrong float log can only become an error); explicit order/char/'
-            'ext_deg are met exactly when the modulus is absent or a prime int; lifting happens iff t != 0 and m >= q; under '
-            'the ceil-log law the lifted field has q^e > m with e >= 2; every SecFld / _pfield field has order > m when t != 0; '
-            'setup refuses 2t >= m and its default threshold (m-1)//2 is valid and maximal; out-conversion lands in [0,q). '
-            'The statement "exact degree/order for every argument combination" is REFUTED in the model by a witness '
-            '(polynomial/str modulus with an ext_deg or order of different degree) and replayed on the implementation '
-            '(known finding F-C39-1). Model and real mpc.SecFld are compared on every run over argument cross products; '
-            'setup/lifting/_pfield over all (m,t), m <= 9, in subprocesses.',
+    'text': 'Coq theorems over the decision-function model of SecFld (all argument values, all kinds of modulus): a '
+            'successful resolution has field characteristic = resolved char and field degree = resolved ext_deg; an explicit '
+            'order q0 yields a field of exactly order q0 whose (char, degree) is the prime-power factorisation of q0; an '
+            'explicit char / ext_deg is met exactly; min_order <= claimed order unconditionally (final assert: a wrong float '
+            'log can only become an error) and the claimed order is the actual field order; lifting happens iff t != 0 and '
+            'm >= q; under the ceil-log law the lifted field has q^e > m with e >= 2; every SecFld / _pfield field has order > m '
+            'when t != 0; setup refuses 2t >= m and its default threshold (m-1)//2 is valid and maximal; out-conversion lands '
+            'in [0,q). Model and real mpc.SecFld are compared on every run over argument cross products (inconsistent '
+            'combinations are expected to be refused); setup/lifting/_pfield over all (m,t), m <= 9, in subprocesses. The '
+            'earlier finding F-C39-1 (degree of a polynomial modulus never compared with ext_deg/order) is repaired by repo '
+            'commit d972df8; the model contains the new assert and the formerly accepted calls are ordinary refused cases.',
     'note': 'Trusted: Coq kernel+vm_compute; gmpy2 stubs (factor_prime_power, is_prime, iroot, next_prime), '
             'gfpx.is_irreducible, finfields.find_irreducible (degree-d irreducible) and math.ceil(math.log(a,b)) are ORACLES: '
             'their answers are supplied to the model as tables computed by independent Python code in this check (own '
@@ -393,7 +394,7 @@ def run(ctx):
     for _ in range(ctx.n(900, 9000)):
         cases.append((rng.choice([None, None] + orders_all + orders_sub), rng.choice(moduli + [None] * 6),
                       rng.choice(chars + [None] * 3), rng.choice(exts + [None] * 2), rng.choice(mins + [None] * 6)))
-    # the witnesses of C39_secfld_order_exact_refuted / C39_secfld_min_order_field_refuted, replayed on the implementation
+    # polynomial modulus with a different requested degree / order (accepted before repo commit d972df8): must be refused
     cases.append((8, ('str', [1, 1, 1]), None, None, None))
     cases.append((None, ('str', [1, 1, 1]), None, 10, 100))
     cases.append((None, ('str', [1, 1, 1]), None, 3, None))
@@ -413,13 +414,6 @@ def run(ctx):
         if md[0] == 'str':
             return poly_str(md[1])
         return gfpx.GFpX(md[1])(poly_str(md[2]))
-
-    def mod_degree_under(md, p):
-        if md[0] == 'str':
-            return len(poly_norm(p, md[1])) - 1
-        if md[0] == 'poly':
-            return len(md[2]) - 1
-        return len(poly_digits(p, md[1])) - 1
 
     exprs, meta = [], []
     skipped = 0
@@ -488,9 +482,7 @@ def run(ctx):
             if S.subfield is not None:
                 bad.append('lifted-with-one-party')
             if bad:
-                polyish = md is not None and (md[0] != 'int' or converted)
-                only_deg = polyish and set(bad) <= {'order', 'ext_deg', 'min_order'} and fd == mod_degree_under(md, fc)
-                sig = ('secfld-poly-modulus-degree-not-checked' if only_deg else 'secfld-wrong-field') + ' ' + ','.join(bad)
+                sig = 'secfld-wrong-field ' + ','.join(bad)
                 ctx.violation(sig, {'call': desc, 'got': {'char': fc, 'ext_deg': fd, 'order': fo}, 'violated': bad})
         exprs.append('%s %s %s %s %s %s' % (tbl, optz(order), modlit(md), optz(char), optz(ext_deg), optz(min_order)))
         meta.append((desc, got))
